@@ -16,8 +16,10 @@
      6 _q.get() if not _q.empty() else recvfrom; rx_filter; a frame that does not
        answer the request is dropped (since the F4 repair it is no longer put on _q;
        nothing in the code fills _q any more) and counted; loop        (inside)
-     7 release (leaving the with block, also on an exception); return rx_data[6:-1]
-       or raise RetryError.
+     7 release (leaving the with block, also on an exception)
+     8 the code after the with block: `if retry > self.max_retries: raise RetryError`,
+       `return rx_data[6:-1]` - it reads locals only, so it changes nothing shared, but
+       it is a step of its own: other threads may run between the release and the return.
    Not modelled: bridged targets (target.routing -> one more unlocked read of
    next_sequence_number, decode_bridged_message), the byte layout of the datagrams
    (C03/C05), logging. *)
@@ -43,7 +45,7 @@ Inductive event :=
 
 (* labels: what a step did (compared with the harness' event trace) *)
 Inductive label :=
-| LRead (v : N) | LWrite (v : N) | LHdr (v : N) | LAcq | LSend | LRecv | LQGet | LTimeout | LRel.
+| LRead (v : N) | LWrite (v : N) | LHdr (v : N) | LAcq | LSend | LRecv | LQGet | LTimeout | LRel | LRet.
 
 (* where a thread is inside _send_and_receive; the arguments are its locals *)
 Inductive pc :=
@@ -53,7 +55,8 @@ Inductive pc :=
 | PAcq (h : N)                             (* after step 3: h = header.rq_seq *)
 | PSend (h : N) (retry : nat)              (* lock held; at `self._send_ipmi_msg(tx_data)` *)
 | PRecv (h : N) (retry rr : nat)           (* lock held; in the inner while, rr = received_retry *)
-| PRel (h : N) (o : res frame).            (* lock held; leaving the with block with this outcome *)
+| PRel (h : N) (o : res frame)             (* lock held; leaving the with block with this outcome *)
+| PRet (h : N) (o : res frame).            (* lock released; at the code after the with block *)
 
 Record thread := mkT { t_reqs : list treq;           (* the requests this thread issues, in order *)
                        t_k : nat;                    (* index of the current / next request *)
@@ -183,8 +186,10 @@ Definition step_l (c : cfg) (g : gstate) (t : tid) : option (label * gstate) :=
                                                 else PRel h (Err RetryError))))
               end
           end
-      | PRel h o =>  (* __exit__ of the with block releases; return rx_data[6:-1] / raise *)
-          Some (LRel, set_thr (set_lock g None) t (finish th o))
+      | PRel h o =>  (* __exit__ of the with block releases *)
+          Some (LRel, set_thr (set_lock g None) t (set_pc th (PRet h o)))
+      | PRet h o =>  (* if retry > self.max_retries: raise ... ; return rx_data[6:-1] (locals) *)
+          Some (LRet, set_thr g t (finish th o))
       end
     end
   end.
